@@ -57,6 +57,7 @@ OPS = {
     'hstarts': ("starts-with($a0,$a1,'%s')" % 'HTML', 'SS', V2, False, 'elementpath/collations.py CollationManager.startswith'),
     'hends': ("ends-with($a0,$a1,'%s')" % 'HTML', 'SS', V2, False, 'elementpath/collations.py CollationManager.endswith'),
     'hcompare': ("compare($a0,$a1,'%s')" % 'HTML', 'SS', V2, False, 'elementpath/collations.py html_ascii_strcoll'),
+    'cp2sx': ('codepoints-to-string($a0)', 'X', V2, False, SITE2 + ' evaluate__codepoints_to_string'),
     'ctoken': ('contains-token($a1,$a0)', 'ST', 3, False, 'elementpath/xpath31/_xpath31_functions.py evaluate__contains_token'),
     'hctoken': ("contains-token($a1,$a0,'HTML')", 'ST', 3, False, 'elementpath/xpath31/_xpath31_functions.py evaluate__contains_token'),
     'encode': ('encode-for-uri($a0)', 'S', V2, False, SITE2 + ' evaluate__encode_for_uri'),
@@ -177,6 +178,16 @@ def case_line(case, compat: bool = False) -> str:
         if case['inner'] is None:
             return head
         return head + '|' + case_line({'op': case['inner'], 'args': args}, compat)
+    if op == 'cp2sx':
+        def tok(it):
+            k = it[0]
+            if k == 'i':
+                return f'i:{it[1]}'
+            if k == 'u':
+                import re as _re
+                return 'u:' + (str(int(it[1])) if _re.fullmatch(r'\s*[+-]?[0-9]+\s*', it[1]) else '-')
+            return k
+        return 'cp2sx|' + ' '.join(tok(it) for it in args[0])
     if op in ('ctoken', 'hctoken'):
         return '|'.join(['ctoken', 'h' if op == 'hctoken' else 'c', cps_line(args[0])] + [cps_line(x) for x in args[1]])
     kinds = OPS[op][1]
@@ -244,8 +255,15 @@ def expr_of(case) -> tuple[str, dict]:
         for k_, v_ in list(ivar.items()):
             if isinstance(v_, str) and v_ == '@':
                 ivar[k_] = numarg_value(case['num'])
+            elif isinstance(v_, list) and '@' in v_:
+                ivar[k_] = [numarg_value(case['num']) if x == '@' else x for x in v_]
         return ie, ivar
     e, kinds = OPS[op][0], OPS[op][1]
+    if op == 'cp2sx':
+        from elementpath.datatypes import UntypedAtomic
+        conv = {'i': lambda it: int(it[1]), 'u': lambda it: UntypedAtomic(it[1]), 'b': lambda it: bool(it[1]),
+                's': lambda it: it[1], 'o': lambda it: (float(it[1]) if it[2] == 'f' else Decimal(it[1]))}
+        return e, {'a0': [conv[it[0]](it) for it in args[0]]}
     if op == 'concat':
         items = args[0]
         return 'concat(' + ','.join(f'$a{i}' for i in range(len(items))) + ')', \
@@ -277,6 +295,25 @@ def node_roots(cps):
     a2 = ET.Element('a')
     a2.set('x', t)
     return a, a2
+
+
+def lxml_copy(elem):
+    """the same tree as an lxml element, when lxml accepts its text (XML-compatible characters only)"""
+    E = env()
+    if E['le'] is None:
+        return None
+    try:
+        def cp(e):
+            n = E['le'].Element(e.tag)
+            n.text, n.tail = e.text, e.tail
+            for k, v in e.attrib.items():
+                n.set(k, v)
+            for c in e:
+                n.append(cp(c))
+            return n
+        return cp(elem)
+    except Exception:
+        return None
 
 
 NODE_OPS = ('substring2', 'substring3', 'before', 'after', 'contains', 'starts', 'ends', 'translate', 'normalize',
@@ -342,11 +379,21 @@ def variants(case, pidx: int):
         # (`if self.context is not None: context = self.context` in every evaluate method)
         i = e.index('(')
         out.append((f'{e[:i]}#{e[i:].count(",") + 1}{e[i:]}', var, 'function-item', None))
+    if case.get('evalpaths') and op not in ('s2cp',):
+        for path in ('token.evaluate', 'token.select', 'iter_select'):
+            out.append((e, var, path, None))
     if op in NODE_OPS and isinstance(args[0], list) and case.get('nodeforms'):
         elem, attr = node_roots(args[0])
         rest = {k: v for k, v in var.items() if k != 'a0'}
         out.append((e.replace('$a0', '.'), rest, 'node-argument', elem))
         out.append((e.replace('$a0', '@x'), rest, 'attribute-argument', attr))
+        import xml.etree.ElementTree as ET
+        out.append((e.replace('$a0', '.'), rest, 'document-node-argument', ET.ElementTree(elem)))
+        out.append((e.replace('$a0', 'a'), rest, 'child-of-document-argument', ET.ElementTree(elem)))
+        lroot = lxml_copy(elem)
+        if lroot is not None:
+            out.append((e.replace('$a0', '.'), rest, 'lxml-node-argument', lroot))
+            out.append((e.replace('$a0', '/a'), rest, 'lxml-node-argument', lroot.getroottree()))
         if op == 'length':
             out.append(('string-length()', {}, 'context-item', elem))
             out.append(('string-length(string())', {}, 'context-item', elem))
@@ -371,13 +418,26 @@ def err_canon(ex) -> str:
     return f'ERR:OTHER:{type(ex).__name__}'
 
 
-def run_impl(case, pidx: int, e=None, var=None, root=None, unwrap=False, kw=None) -> str:
+def run_impl(case, pidx: int, e=None, var=None, root=None, unwrap=False, kw=None, path=None) -> str:
     E = env()
     if e is None:
         e, var = expr_of(case)
     try:
-        r = E['ep'].select(E['root'] if root is None else root, e, parser=E['parsers'][pidx], variables=var,
-                           **(kw or {}))
+        if path in ('token.evaluate', 'token.select'):
+            tok = E['parsers'][pidx]().parse(e)
+            ctx = E['ep'].XPathContext(E['root'] if root is None else root, variables=var)
+            if path == 'token.evaluate':
+                r = tok.evaluate(ctx)
+            else:
+                r = list(tok.select(ctx))
+                r = r[0] if len(r) == 1 else r
+        elif path == 'iter_select':
+            r = list(E['ep'].iter_select(E['root'] if root is None else root, e, parser=E['parsers'][pidx],
+                                         variables=var))
+            r = r[0] if len(r) == 1 else r
+        else:
+            r = E['ep'].select(E['root'] if root is None else root, e, parser=E['parsers'][pidx], variables=var,
+                               **(kw or {}))
         if unwrap and isinstance(r, list) and len(r) == 1:
             r = r[0]       # a dynamic function call yields its result as a sequence
         return canon(r)
@@ -587,13 +647,15 @@ def gen_numarg(rng):
 def gen_conv(rng):
     num = gen_numarg(rng)
     dot, minus, digits = [46], [45], [49, 50, 48]
-    inner = rng.choice([None, None, 'concat', 'length', 'substring2', 'contains', 'starts', 'before', 'after',
+    inner = rng.choice([None, None, 'join', 'concat', 'length', 'substring2', 'contains', 'starts', 'before', 'after',
                         'translate', 'normalize', 'concat'])
     if inner is None:
         args = []
     elif inner == 'concat':
         items = [rng.choice([[], [124], S('x')]), '@', rng.choice([[], [124]])]
         args = [items]
+    elif inner == 'join':
+        args = [rng.choice([[], [45], S(', ')]), [rng.choice([S('a'), []]), '@', S('z')][:rng.randint(2, 3)]]
     elif inner in ('length', 'normalize'):
         args = ['@']
     elif inner == 'substring2':
@@ -609,7 +671,7 @@ WEIGHTS = {'substring2': 10, 'substring3': 16, 'before': 6, 'after': 6, 'contain
            'translate': 10, 'normalize': 8, 'length': 2, 'concat': 3, 'join': 3, 'compare': 5, 'cpequal': 3,
            's2cp': 2, 'cp2s': 4, 'upper': 4, 'lower': 5, 'encode': 3, 'iri': 3, 'html': 3,
            'hbefore': 3, 'hafter': 3, 'hcontains': 2, 'hstarts': 2, 'hends': 2, 'hcompare': 4,
-           'ctoken': 4, 'hctoken': 2}
+           'ctoken': 4, 'hctoken': 2, 'cp2sx': 4}
 
 
 def gen_case(rng, ops=None):
@@ -618,6 +680,22 @@ def gen_case(rng, ops=None):
     ops = ops or ACTIVE_OPS
     op = rng.choices(ops, [WEIGHTS[o] for o in ops])[0]
     alpha = gen_alpha(rng, op)
+    if op == 'cp2sx':
+        items = []
+        for _ in range(rng.randint(0, 4)):
+            r = rng.random()
+            if r < 0.45:
+                items.append(('i', str(rng.choice([65, 66, 0x1F600, 9, 0x10FFFF, 0xE000, 0, 8, 0xD800, 0xFFFE, -1, 0x110000]
+                                                 if rng.random() < 0.35 else [65, 97, 0x20AC, 0x1F600]))))
+            elif r < 0.65:
+                items.append(('u', rng.choice(['65', ' 66 ', '+67', '0', '-1', '55296', '128512', 'x', '', '6.5', '1e2', '0x41'])))
+            elif r < 0.75:
+                items.append(('b', rng.randrange(2)))
+            elif r < 0.87:
+                items.append(('s', rng.choice(['a', '65', ''])))
+            else:
+                items.append(('o', rng.choice(['2309.1', '65.0', '1.5']), rng.choice('fd')))
+        return {'op': op, 'args': [items]}
     if op in ('ctoken', 'hctoken'):
         alpha = alpha + [32, 32, 9, 10, 13] + ([0xA0, 0x0C, 0x0B, 0x2003] if rng.random() < 0.3 else [])
         inputs = [gen_str(rng, alpha, 10) for _ in range(rng.randint(0, 3))]
@@ -683,6 +761,8 @@ def gen_case(rng, ops=None):
         case['nodeforms'] = True       # also evaluate with the first argument given as a node / the context item
     if rng.random() < 0.2:
         case['fnitem'] = True          # also call through a named function reference (3.0+)
+    if rng.random() < 0.15:
+        case['evalpaths'] = True       # also through token.evaluate(), token.select() and iter_select()
     return case
 
 
@@ -773,6 +853,12 @@ CORPUS = [
     {'op': 'normalize', 'args': [S('  a  b\t\n c ')], 'nodeforms': True},
     {'op': 'substring3', 'args': [S('12345'), fnum(1.5), fnum(2.6)], 'nodeforms': True},
     {'op': 'contains', 'args': [S('tattoo'), S('tt')], 'nodeforms': True},
+    {'op': 'cp2sx', 'args': [[('i', '65'), ('u', ' 66 '), ('u', '+67')]]},
+    {'op': 'cp2sx', 'args': [[('u', 'x')]]},
+    {'op': 'cp2sx', 'args': [[('b', 1)]]},
+    {'op': 'cp2sx', 'args': [[('s', 'z')]]},
+    {'op': 'cp2sx', 'args': [[('i', '65'), ('o', '2309.1', 'f')]]},
+    {'op': 'cp2sx', 'args': [[('i', '55296')]]},
     {'op': 'cp2s', 'args': [[65, 0]]},
     {'op': 'cp2s', 'args': [[0x2309, 0x1F600, 0xFFFD]]},
     {'op': 'cp2s', 'args': [[0xFFFE]]},
@@ -804,7 +890,7 @@ ACTIVE_OPS = list(OPS)
 
 # ----------------------------------------------------------------------- correspondence
 def nontrivial(case) -> bool:
-    return case['op'] == 'conv' or any(len(a) > 0 for a in case['args'] if isinstance(a, list))
+    return case['op'] in ('conv', 'cp2sx') or any(len(a) > 0 for a in case['args'] if isinstance(a, list))
 
 
 def has_empty_seq(case) -> bool:
@@ -863,7 +949,12 @@ def compare(run: Run, cases: list) -> None:
         if op == 'conv':
             isfloat = case['num'][0] == 'F'
             pidxs = [0] if (isfloat or case['inner'] != 'concat') else [0, 1, 2, 3]
+            if case['inner'] == 'join':
+                pidxs = [] if isfloat else [3]      # string-join over xs:anyAtomicType* (F&O 3.1; xs:string* in 3.0)
             trig = ans[line1].split('|')[2] == '1'
+        elif op == 'cp2sx':
+            pidxs = range(OPS[op][2], 4)
+            trig = ans[line].split('|')[2] == '1'
         else:
             pidxs = range(OPS[op][2], 4)
             trig = False
@@ -872,11 +963,14 @@ def compare(run: Run, cases: list) -> None:
             model0, spec0 = ans[line1 if pidx == 0 else line].split('|')[:2]
             for e, var, form, root, *key in variants(case, pidx):
                 model, spec, tags = model0, spec0, (['F09g'] if (trig and pidx == 0) else [])
+                if op == 'cp2sx':
+                    tags = ['F09k'] if trig else []
                 if key:
                     model, spec, flag = ans[extra[key[0]]].split('|')
                     tags = ['F09j'] if (flag == '1' and pidx == 0 and key[0] == 's') else []
                 kw = FORM_KW[form]() if form in FORM_KW else None
-                impl = run_impl(case, pidx, e, var, root, unwrap=(form == 'function-item'), kw=kw)
+                impl = run_impl(case, pidx, e, var, root, unwrap=(form == 'function-item'), kw=kw,
+                                path=form if form in ('token.evaluate', 'token.select', 'iter_select') else None)
                 st.count('parser:' + pname)
                 if form != 'call':
                     st.count('form:' + form)
@@ -1157,8 +1251,10 @@ def function_items_pass(run: Run, cases: list, groups: int) -> None:
             (f"for $f in w/function-lookup(QName('{FN}', 'normalize-space'), 0) return $f()", norm),
             (f"for $f in w/function-lookup(QName('{FN}', 'string'), 0) return $f()", ident),
             ('for $f in w/upper-case(., ?) return 0', None),     # arity error: ignored (not a valid partial)
-            # (partial applications that fix `.` — `w/substring(., ?)` — evaluate the fixed argument at call time
-            #  on the pinned tree: a function-item defect outside this property, reported to C16, not checked here)
+            # partial applications that fix `.` (repaired by C16's fix after being observed here)
+            ('for $f in w/substring(., ?) return $f(2)', sub2),
+            ('for $f in w/contains(., ?) return $f("a")', cont),
+            ('(w ! substring(., ?)) ! .(2)', sub2),
             ('for $w in w return substring($w, ?)(2)', sub2),
             ('for $w in w return (let $f := contains(?, "a") return $f($w))', cont),
             ('let $fs := w/string-length#0 return (for $f in reverse($fs) return $f())', length[::-1]),
@@ -1186,9 +1282,130 @@ def function_items_pass(run: Run, cases: list, groups: int) -> None:
                                                    '_xpath30_functions.py function-lookup'))
 
 
+def nodeset_pass(run: Run, cases: list, groups: int) -> None:
+    """XPath 1.0 conversion of a node-set argument: the string-value of the node that is FIRST IN DOCUMENT ORDER
+    (whatever the order the node-set expression was written in), '' for an empty node-set; with 2.0+ a sequence of more
+    than one node is XPTY0004.  Documents <r><w>s1</w><w>s2</w>…</r> as ElementTree element, ElementTree document and
+    lxml element; expected values are the single-call spec results for s1 (or the selected node); libxml2 evaluates
+    the same expressions on the lxml tree."""
+    import xml.etree.ElementTree as ET
+    E = env()
+    rng = run.rng
+    st = run.stats
+    pool = [c['args'][0] for c in cases if c['op'] in ('length', 'normalize', 'upper', 'substring2', 'contains', 'translate')
+            and isinstance(c['args'][0], list)]
+    if len(pool) < 4:
+        return
+    plans = [rng.sample(pool, rng.choice([2, 3, 4])) for _ in range(groups)]
+    lines = set()
+    for strs in plans:
+        for s_ in strs + [[]]:
+            c = cps_line(s_)
+            lines |= {f'length|{c}', f'normalize|{c}', f'substring2|{c}|2/1', f'contains|{c}|97', f'translate1|{c}|97|98',
+                      f'starts|{c}|{cps_line(s_[:1])}'}
+        lines.add(f'concat|{cps_line(strs[0])}|124|{cps_line(strs[-1])}')
+    lines = sorted(lines)
+    ans = dict(zip(lines, run.driver('C09', lines)))
+
+    def spec(line):
+        return ans[line].split('|')[1]
+
+    # codepoints-to-string on nodes: atomization, then the cast of the untyped values (2.0+)
+    for texts, want in ((['65', ' 66 ', '128512'], 'S:65 66 128512'), (['65', 'x'], 'ERR:FORG0001'), ([], 'S:'),
+                        (['55296'], 'ERR:FOCH0001')):
+        r = ET.Element('r')
+        for t in texts:
+            ET.SubElement(r, 'c').text = t
+            r[-1].set('v', t)
+        for fe in ('codepoints-to-string(c)', 'codepoints-to-string(c/@v)', 'codepoints-to-string(c/text())'):
+            for pidx in (1, 2, 3):
+                try:
+                    got = canon(E['ep'].select(r, fe, parser=E['parsers'][pidx]))
+                except Exception as ex:
+                    got = err_canon(ex)
+                st.count('nodeset:codepoints-to-string')
+                st.evaluations += 1
+                if got != want:
+                    run.disagree(Disagreement({'op': 'nodeset', 'expr': fe, 'texts': texts,
+                                               'parser': E['parsers'][pidx].__name__}, impl=got, model=None, spec=want,
+                                              what='codepoints-to-string-nodes', site=OPS['cp2sx'][4]))
+    for strs in plans:
+        r = ET.Element('r')
+        for s_ in strs:
+            ET.SubElement(r, 'w').text = s_of(s_)
+        first, second, last = strs[0], strs[1], strs[-1]
+        c1, c2, c0 = cps_line(first), cps_line(second), cps_line([])
+        exprs = [
+            ('string-length(W)', spec(f'length|{c1}')),
+            ('string-length(W[position() > 1])', spec(f'length|{c2}')),
+            ('string-length(W[2] | W[1])', spec(f'length|{c1}')),
+            ('string-length(W[last()] | W[1])', spec(f'length|{c1}')),
+            ('normalize-space(W)', spec(f'normalize|{c1}')),
+            ('substring(W, 2)', spec(f'substring2|{c1}|2/1')),
+            ('substring(W[2] | W[1], 2)', spec(f'substring2|{c1}|2/1')),
+            ('contains(W, "a")', spec(f'contains|{c1}|97')),
+            ('translate(W, "a", "b")', spec(f'translate1|{c1}|97|98')),
+            ('starts-with(W, substring(W[1], 1, 1))', spec(f'starts|{c1}|{cps_line(first[:1])}')),
+            ('concat(W, "|", W[last()])', spec(f'concat|{c1}|124|{cps_line(last)}')),
+            ('string-length(W[@none])', spec(f'length|{c0}')),
+            ('normalize-space(W/none)', spec(f'normalize|{c0}')),
+            ('string-length(string(W))', spec(f'length|{c1}')),
+        ]
+        roots = [('element', r, 'w'), ('document', ET.ElementTree(r), 'r/w')]
+        lr = lxml_copy(r)
+        if lr is not None:
+            roots.append(('lxml-element', lr, 'w'))
+        for kind, root, wpath in roots:
+            for tmpl, want in exprs:
+                fe = tmpl.replace('W', wpath)
+                # XPath 1.0: first node in document order
+                try:
+                    got = canon(E['ep'].select(root, fe, parser=E['parsers'][0]))
+                except Exception as ex:
+                    got = err_canon(ex)
+                st.count(f'nodeset:1.0:{kind}')
+                st.evaluations += 1
+                if got != want:
+                    run.disagree(Disagreement({'op': 'nodeset', 'expr': fe, 'texts': strs, 'root': kind,
+                                               'parser': 'XPath1Parser'}, impl=got, model=None, spec=want,
+                                              what='nodeset-to-string', site='elementpath/xpath_tokens/base.py get_argument / string_value'))
+                # 2.0+: more than one item is a type error, one or no item converts as in 1.0
+                many = ('W,' in tmpl or 'W)' in tmpl) and '[' not in tmpl.split('W')[1][:1] and len(strs) > 1 \
+                    and not tmpl.startswith(('starts-with', 'concat', 'string-length(string'))
+                if kind == 'element' and (many or '[@none]' in tmpl or '/none' in tmpl or 'position() > 1' in tmpl and len(strs) == 2):
+                    for pidx in (1, 3):
+                        try:
+                            got = canon(E['ep'].select(root, fe, parser=E['parsers'][pidx]))
+                        except Exception as ex:
+                            got = err_canon(ex)
+                        want2 = 'ERR:XPTY0004' if many else want
+                        st.count('nodeset:2.0+')
+                        st.evaluations += 1
+                        if got != want2:
+                            run.disagree(Disagreement({'op': 'nodeset', 'expr': fe, 'texts': strs, 'root': kind,
+                                                       'parser': E['parsers'][pidx].__name__}, impl=got, model=None,
+                                                      spec=want2, what='nodeset-to-string',
+                                                      site='elementpath/xpath_tokens/base.py get_argument'))
+                # libxml2 on the same tree
+                if kind == 'lxml-element':
+                    try:
+                        x = E['le'].XPath(fe)(root)
+                        lx = canon(int(x)) if isinstance(x, float) and x == int(x) else canon(x if isinstance(x, bool) else str(x) if isinstance(x, str) else x)
+                    except Exception:
+                        lx = None
+                    if lx is not None:
+                        key = tmpl + '   [node-set argument]'
+                        LXML_SHAPES[key] = LXML_SHAPES.get(key, 0) + 1
+                        st.count('libxml2:compared')
+                        if lx != want:
+                            st.count('libxml2:differs-from-spec')
+                            run.disagree(SpecOracleDisagreement({'op': 'nodeset', 'expr': fe, 'texts': strs}, lx, None, want,
+                                                                what='spec-vs-libxml2', site='EPV/Spec/FOStrings.lean'))
+
+
 def correspond(run: Run) -> None:
     rng = run.rng
-    n = run.scale(18000, 300000)
+    n = run.scale(15000, 250000)
     cases = list(CORPUS) + [gen_case(rng) for _ in range(n)]
     run.stats.rule = ('one case = one function call (op, arguments); strings over small random alphabets drawn from '
                       'ASCII, XML and non-XML whitespace, astral, combining, BMP-edge, non-XML (NUL, surrogates) code '
@@ -1201,6 +1418,7 @@ def correspond(run: Run) -> None:
     law_check(run, cases[:run.scale(2500, 40000)])
     history_pass(run, cases, run.scale(400, 6000))
     function_items_pass(run, cases, run.scale(150, 2000))
+    nodeset_pass(run, cases, run.scale(150, 2000))
 
 
 def search(run: Run):
@@ -1256,7 +1474,7 @@ def _still_fails(cands: list, what: str, parser: str) -> list:
 
 
 def shrink(d: Disagreement) -> Disagreement:
-    if not isinstance(d.case, dict) or 'op' not in d.case or d.case['op'] in ('conv', 'ctoken', 'hctoken', 'law', 'function-item') or 'history' in d.case:
+    if not isinstance(d.case, dict) or 'op' not in d.case or d.case['op'] in ('conv', 'ctoken', 'hctoken', 'law', 'function-item', 'cp2sx', 'nodeset') or 'history' in d.case:
         return d
     best = d
     import time
@@ -1336,6 +1554,11 @@ def translate_case_tables(run: Run) -> dict:
     # Cased is only ever consulted for a character that is not case-ignorable
     cased = [(not ign[c]) and fin(chr(c) + '\u03a3') for c in range(N)]
     ign_r, cased_r = ranges(lambda c: ign[c]), ranges(lambda c: cased[c])
+    # the Unicode property Cased (D135: Lowercase or Uppercase or General_Category=Lt), from an independent
+    # source: str.islower()/isupper() of a single character are the derived properties Lowercase/Uppercase
+    full = [chr(c).islower() or chr(c).isupper() or unicodedata.category(chr(c)) == 'Lt' for c in range(N)]
+    full_r = ranges(lambda c: full[c])
+    probe_mismatch = [c for c in range(N) if cased[c] != (full[c] and not ign[c])][:20]
 
     def row(e):
         return f'({e[0]}, [{", ".join(map(str, e[1]))}])'
@@ -1358,6 +1581,7 @@ def translate_case_tables(run: Run) -> dict:
     out += chunks('lowerTable', 'Nat × List Nat', lo, row)
     out += chunks('casedRanges', 'Nat × Nat', cased_r, lambda r: f'({r[0]}, {r[1]})')
     out += chunks('ignorableRanges', 'Nat × Nat', ign_r, lambda r: f'({r[0]}, {r[1]})')
+    out += chunks('casedPropertyRanges', 'Nat × Nat', full_r, lambda r: f'({r[0]}, {r[1]})')
     out += ['', 'end EPV.Gen.C09']
     gen = LEAN / 'EPV' / 'Gen' / 'C09Case.lean'
     gen.parent.mkdir(exist_ok=True)
@@ -1367,7 +1591,10 @@ def translate_case_tables(run: Run) -> dict:
     return {'unidata_version': unicodedata.unidata_version, 'upper_rows': len(up), 'lower_rows': len(lo),
             'upper_rows_len_ne_1': sorted(c for c, v in up if len(v) != 1)[:200],
             'lower_rows_len_ne_1': sorted(c for c, v in lo if len(v) != 1),
-            'cased_ranges': len(cased_r), 'case_ignorable_ranges': len(ign_r)}
+            'cased_ranges': len(cased_r), 'case_ignorable_ranges': len(ign_r),
+            'cased_property_ranges': len(full_r),
+            'cased_and_case_ignorable_code_points': sum(1 for c in range(N) if full[c] and ign[c]),
+            'probe_vs_property_mismatch': probe_mismatch}
 
 
 def body(run: Run) -> int:
@@ -1385,6 +1612,9 @@ def body(run: Run) -> int:
         'only the Unicode code-point collation is modelled (locale collations: C19)',
         'arguments are already strings / numbers (atomization and string_value of other types: C10)']
     run.stats.extra['case_tables'] = translate_case_tables(run)
+    if run.stats.extra['case_tables']['probe_vs_property_mismatch']:
+        run.broken.append('translator:C09 Cased observed through str.lower() != (Lowercase|Uppercase|Lt) minus Case_Ignorable at '
+                          + str(run.stats.extra['case_tables']['probe_vs_property_mismatch']))
     run.prove(['EPV.Props.C09', 'EPV.Props.C09Tables'], ['EPV.Model.Strings', 'EPV.Spec.FOStrings', 'EPV.Gen.C09Case'])
     if getattr(run, 'replay', None):
         data = json.loads(Path(run.replay).read_text())
